@@ -20,7 +20,9 @@ Strs(n) == UNION {[1..k -> Alphabet] : k \in 0..n}
 Seeds == { <<38, 97, 109, 112, 59>>, <<38, 35, 51, 57, 59>>, <<38, 108, 116, 59, 60>>,
            <<60, 115, 99, 114, 105, 112, 116, 62>>, <<97, 32, 60, 32, 98, 32, 38, 38, 32, 99>> }
 
-Positions == {"print", "afterfilter", "beforefilter", "apply", "macro", "include", "ifcond", "set", "concat"}
+Positions == {"print", "afterfilter", "beforefilter", "apply", "macro", "include", "ifcond", "set", "concat",
+              "afterraw", "afterrawtrim", "twice", "twicetrim", "applytwice", "settwice", "mixed"}
+OtherName(f) == IF f = "e" THEN "escape" ELSE "e"
 
 \* program for filter name f applied to variable s in position pos; pre/post are the
 \* literal bytes expected around the escaped text
@@ -34,6 +36,15 @@ Prog(pos, f) ==
       [] pos = "include"      -> ("main" :> <<Text(<<91>>), Inc(LS(NT.t1)), Text(<<93>>)>>) @@ ("t1" :> <<PrintS(Filt(f, Var("s"), <<>>))>>)
       [] pos = "ifcond"       -> ("main" :> <<Text(<<91>>), If1(LB(TRUE), <<PrintS(Filt(f, Var("s"), <<>>))>>), Text(<<93>>)>>)
       [] pos = "set"          -> ("main" :> <<Set("z", Filt(f, Var("s"), <<>>)), Text(<<91>>), PrintS(Var("z")), Text(<<93>>)>>)
+      \* raw marks a value as safe for automatic escaping; an explicit escape after it still escapes
+      [] pos = "afterraw"     -> ("main" :> <<Text(<<91>>), PrintS(Filt(f, Filt("raw", Var("s"), <<>>), <<>>)), Text(<<93>>)>>)
+      [] pos = "afterrawtrim" -> ("main" :> <<Text(<<91>>), PrintS(Filt("trim", Filt(f, Filt("raw", Var("s"), <<>>), <<>>), <<>>)), Text(<<93>>)>>)
+      \* the filter applied to its own output escapes again (the "&" of every reference)
+      [] pos = "twice"        -> ("main" :> <<Text(<<91>>), PrintS(Filt(f, Filt(f, Var("s"), <<>>), <<>>)), Text(<<93>>)>>)
+      [] pos = "twicetrim"    -> ("main" :> <<Text(<<91>>), PrintS(Filt(f, Filt(f, Filt("trim", Var("s"), <<>>), <<>>), <<>>)), Text(<<93>>)>>)
+      [] pos = "mixed"        -> ("main" :> <<Text(<<91>>), PrintS(Filt(OtherName(f), Filt(f, Var("s"), <<>>), <<>>)), Text(<<93>>)>>)
+      [] pos = "applytwice"   -> ("main" :> <<Text(<<91>>), Apply(f, <<>>, <<PrintS(Filt(f, Var("s"), <<>>))>>), Text(<<93>>)>>)
+      [] pos = "settwice"     -> ("main" :> <<Set("z", Filt(f, Var("s"), <<>>)), Text(<<91>>), PrintS(Filt(f, Var("z"), <<>>)), Text(<<93>>)>>)
       [] pos = "concat"       -> ("main" :> <<Text(<<91>>), PrintS(Bin("~", Filt(f, Var("s"), <<>>), LS(<<122>>))), Text(<<93>>)>>)
 Pre(pos)  == IF pos = "macro" THEN <<91, 60>> ELSE <<91>>
 Post(pos) == CASE pos = "macro" -> <<62, 93>> [] pos = "concat" -> <<122, 93>> [] OTHER -> <<93>>
@@ -54,7 +65,8 @@ CaseOf(c) ==
     [prop |-> "C07", key |-> ToJson(c),
      tags |-> {"pos:" \o c.pos, "vt:" \o c.v.t},
      entry |-> "main", ctx |-> ("s" :> c.v), rel |-> "same",
-     aux |-> [in |-> InText(c.pos, c.v), pre |-> Pre(c.pos), post |-> Post(c.pos), isd |-> WholeIsD(c.pos, c.v)],
+     aux |-> [in |-> InText(c.pos, c.v), pre |-> Pre(c.pos), post |-> Post(c.pos), isd |-> WholeIsD(c.pos, c.v),
+              twice |-> c.pos \in {"twice", "twicetrim", "applytwice", "settwice", "mixed"}],
      runs |-> <<[label |-> "escape", tp |-> Sources(Prog(c.pos, "escape"), LMin), xcalls |-> [id \in {} |-> 0]],
                 [label |-> "e", tp |-> Sources(Prog(c.pos, "e"), LMin), xcalls |-> [id \in {} |-> 0]]>>,
      \* the exact spelling of a reference is not fixed by the property: the output is judged by Trace_C07
